@@ -256,8 +256,13 @@ def stepWaiter (sh : Sh) (fl : Bool) (w : Waiter) : Sh × Waiter :=
   | .returned _ => (sh, w)
   | .abandoned => (sh, w)
 
+/-- What a waiter's snapshot must show (the run-time oracle of C06's safety clause: the driver
+evaluates this same function on the implementation's snapshot). -/
+def snapshotOk (status : Nat) (f : Flags) (needPostStop : Bool) : Bool :=
+  status == stStopped && f.complete needPostStop
+
 /-- `ok` flag a waiter returning now would record. -/
-def okNow (g : G) : Bool := g.sh.status == stStopped && g.sh.flags.complete g.exiter.hasPostStop
+def okNow (g : G) : Bool := snapshotOk g.sh.status g.sh.flags g.exiter.hasPostStop
 
 def step (g : G) : Tid → G
   | .e =>
